@@ -177,7 +177,7 @@ theorem interleaved_page_roundtrip (s : St) (hi : IInv s)
   generalize (decodeTeletext (tick s) hdr).st = s2 at ho hi2 hok hterm hnosw ⊢
   generalize (decodeTeletext (tick s) hdr).ev = ev2 at he ⊢
   -- the items
-  have hmid0 : Mid s2 s2 t.m [] := ⟨hi2, ⟨t.m, ho.cur⟩, rfl, rfl, rfl⟩
+  have hmid0 : Mid s2 s2 t.m [] := ⟨hi2, ⟨t.m, ho.cur⟩, SameText.refl _, rfl, rfl⟩
   obtain ⟨hmid, hpages, _⟩ := run_items s2 t.m hm ho.fn t.pgno ⟨t.page, a16_lt hdr 2 _ hh.page, rfl⟩ items s2 [] hmid0 hok
   simp only [List.nil_append] at hmid
   generalize hsR : (run s2 (items.map Item.pkt)).1 = sR at hmid hterm hnosw ⊢
@@ -186,12 +186,12 @@ theorem interleaved_page_roundtrip (s : St) (hi : IInv s)
   have hready : Ready sR s1 t hdr (rowsOf (ownRows items)) := by
     refine ⟨hmid.inv.shape.len, hmid.inv.mask, hmid.inv.shape.cd, parallelCur_of sR hmid.inv.shape hmid.inv.par c hc,
       ?_, ?_, ?_, ?_, ?_, ?_, ?_, ?_⟩
-    · rw [hmid.page]; exact ho.fn
-    · rw [hmid.page]; exact ho.pg
-    · rw [hmid.page]; exact ho.sub
-    · rw [hmid.page]; exact ho.nat
-    · rw [hmid.page]; exact ho.flags
-    · rw [hmid.page]; exact ho.raw
+    · rw [hmid.page.fn]; exact ho.fn
+    · rw [hmid.page.pgno]; exact ho.pg
+    · rw [hmid.page.subno]; exact ho.sub
+    · rw [hmid.page.national]; exact ho.nat
+    · rw [hmid.page.flags]; exact ho.flags
+    · rw [hmid.page.raw]; exact ho.raw
     · rw [hmid.lr, ho.lr]
     · rw [hmid.lp, ho.lp]
   have hrows : ∀ r ∈ rowsOf (ownRows items), 1 ≤ r.1 ∧ r.1 ≤ 25 ∧ GoodRow r.2 := by
@@ -210,6 +210,8 @@ theorem interleaved_page_roundtrip (s : St) (hi : IInv s)
           · exact ⟨hk1, hk2, hg (k, p) (by simp [ownRows])⟩
           · exact ih _ hrest (fun x hx => hg x (by simp [ownRows, hx])) r hr
         | foreign m' k p =>
+          exact ih _ hok.2 (fun x hx => hg x hx) r hr
+        | ownx k p =>
           exact ih _ hok.2 (fun x hx => hg x hx) r hr
     exact gen items s2 hok hgood
   simp only [run_cons, run_nil, List.append_nil]
